@@ -736,7 +736,7 @@ class Interp:
                 if isinstance(e, ast.Starred):
                     self.assign(e.value, ('unk', 'starred'), env, frame, cond)
                 else:
-                    x = items[i] if items is not None else ('idx', v, num(i))
+                    x = items[i] if items is not None else self.getitem_term(v, num(i))
                     self.assign(e, x, env, frame, cond)
             return
         if isinstance(target, (ast.Attribute, ast.Subscript)):
@@ -1003,6 +1003,13 @@ class Interp:
                 x == NONE or (is_num(x) and x[1].denominator == 1) for x in key[1:]):
             sl = slice(*[None if x == NONE else int(x[1]) for x in key[1:]])
             return (base[0], tuple(base[1][sl]))
+        if base[0] == 'elem' and base[1][0] == 'call' and base[1][1] == 'zip' and \
+                not base[1][3] and is_num(key) and key[1].denominator == 1 and \
+                0 <= int(key[1]) < len(base[1][2]):
+            return intern(('elem', base[1][2][int(key[1])], base[2]))
+        if base[0] == 'elem' and base[1][0] == 'call' and base[1][1] == 'enumerate' \
+                and len(base[1][2]) == 1 and key == num(1):
+            return intern(('elem', base[1][2][0], base[2]))
         if base[0] == 'call' and base[1] in ('numpy.array', 'numpy.asarray') and \
                 len(base[2]) == 1 and base[2][0][0] in ('list', 'tuple') and \
                 is_num(key) and key[1].denominator == 1:
